@@ -23,6 +23,9 @@ func staticObligations(p *Program, prop, verif string) ([]*Obligation, []string)
 	if prop == "C16" || prop == "C09" {
 		out = append(out, errorFormatVerbs(p)...)
 	}
+	if prop == "C16" {
+		out = append(out, formatConstants(p)...)
+	}
 	if prop == "C09" {
 		mo, as := mapRangeObligations(p, verif)
 		out = append(out, mo...)
@@ -381,4 +384,133 @@ func mapRangeObligations(p *Program, verif string) ([]*Obligation, []string) {
 	}
 	sort.Strings(assumed)
 	return out, assumed
+}
+
+// ---- C16: format strings are program constants --------------------------------------------------------------
+// Every call of fmt.Sprintf / Errorf / Fprintf / Sprint-family with a format parameter in non-test code of the module
+// passes a constant format, so text taken from the input (a message that quotes the offending byte or key) is never
+// interpreted as a format. The one exception is errs.f (behind errs.Code.F), which formats an entry of the constant table
+// errs.errorFormat (checked by errs.errorFormat#table:no-struct-verbs). One obligation per call site, named by function
+// and ordinal.
+func formatConstants(p *Program) []*Obligation {
+	var out []*Obligation
+	isFmtF := func(fn *ssa.Function) bool {
+		if fn == nil || fn.Pkg == nil || fn.Pkg.Pkg.Path() != "fmt" {
+			return false
+		}
+		switch fn.Name() {
+		case "Sprintf", "Errorf", "Fprintf", "Printf", "Appendf", "Sscanf", "Fscanf":
+			return true
+		}
+		return false
+	}
+	seen := map[*ssa.Function]bool{}
+	var visit func(fn *ssa.Function)
+	visit = func(fn *ssa.Function) {
+		if fn == nil || seen[fn] || fn.Blocks == nil {
+			return
+		}
+		seen[fn] = true
+		type site struct {
+			pos token.Pos
+			arg ssa.Value
+		}
+		var sites []site
+		for _, b := range fn.Blocks {
+			for _, in := range b.Instrs {
+				call, ok := in.(ssa.CallInstruction)
+				if !ok {
+					continue
+				}
+				cc := call.Common()
+				callee := cc.StaticCallee()
+				if !isFmtF(callee) {
+					continue
+				}
+				idx := 0
+				if callee.Name() == "Fprintf" || callee.Name() == "Appendf" || callee.Name() == "Sscanf" || callee.Name() == "Fscanf" {
+					idx = 1
+				}
+				if idx < len(cc.Args) {
+					sites = append(sites, site{in.Pos(), cc.Args[idx]})
+				}
+			}
+		}
+		sort.Slice(sites, func(i, j int) bool { return sites[i].pos < sites[j].pos })
+		for i, st := range sites {
+			o := &Obligation{Name: fmt.Sprintf("%s#fmtconst:%d", shortFn(fn), i+1), Kind: "table", Fn: shortFn(fn), Solver: "const-eval",
+				Desc: "the format string of this fmt call is a program constant (input text is never interpreted as a format)", Pos: p.fset.Position(st.pos)}
+			if c, ok := st.arg.(*ssa.Const); ok && c.Value != nil && c.Value.Kind() == constant.String {
+				o.Status = "unsat"
+				o.RawOut = fmt.Sprintf("constant format %q", constant.StringVal(c.Value))
+			} else if shortFn(fn) == "errs.f" && readsOnlyTable(fn, "errorFormat") {
+				o.Status = "unsat"
+				o.RawOut = "format taken from the constant table errs.errorFormat (see errs.errorFormat#table:no-struct-verbs)"
+			} else {
+				o.Status = "sat"
+				o.RawOut = "the format argument is computed at run time: " + st.arg.String()
+				o.Model = o.RawOut
+			}
+			out = append(out, o)
+		}
+		for _, an := range fn.AnonFuncs {
+			visit(an)
+		}
+	}
+	var paths []string
+	for path := range p.pkgs {
+		paths = append(paths, path)
+	}
+	sort.Strings(paths)
+	for _, path := range paths {
+		if !strings.HasPrefix(path, modPath) || strings.Contains(path, "/internal/cmd") {
+			continue
+		}
+		pkg := p.pkgs[path]
+		var names []string
+		for n := range pkg.Members {
+			names = append(names, n)
+		}
+		sort.Strings(names)
+		for _, n := range names {
+			switch t := pkg.Members[n].(type) {
+			case *ssa.Function:
+				visit(t)
+			case *ssa.Type:
+				for _, tt := range []types.Type{t.Type(), types.NewPointer(t.Type())} {
+					ms := p.prog.MethodSets.MethodSet(tt)
+					for i := 0; i < ms.Len(); i++ {
+						visit(p.prog.MethodValue(ms.At(i)))
+					}
+				}
+			}
+		}
+	}
+	return out
+}
+
+// readsOnlyTable: every map lookup in fn is a lookup in the package-level table of that name, and there is one
+func readsOnlyTable(fn *ssa.Function, table string) bool {
+	n := 0
+	for _, b := range fn.Blocks {
+		for _, in := range b.Instrs {
+			lk, ok := in.(*ssa.Lookup)
+			if !ok {
+				continue
+			}
+			if _, isMap := lk.X.Type().Underlying().(*types.Map); !isMap {
+				continue
+			}
+			ld, ok := lk.X.(*ssa.UnOp)
+			if !ok {
+				return false
+			}
+			g, ok := ld.X.(*ssa.Global)
+			if !ok || g.Name() != table {
+				return false
+			}
+			n++
+		}
+	}
+	return n > 0
 }
